@@ -359,3 +359,126 @@ Proof.
     + done.
     + exact (fj_chans c HFJ).
 Qed.
+
+(* ------------------------------------------------------------------ what a fork-join process does next *)
+Lemma fj_action D pp pv kp :
+  fj (pr_body0 pp) = true -> pr_provs pp = [pv] -> chan pv = Some kp ->
+  match action_of Async D pp with
+  | ASend k m => k = kp /\ m_rule m = RCLS
+  | ARecv k => k ∈ fcids (pr_body0 pp) /\ exists c0 k0, pr_body0 pp = FWait c0 k0
+  | AInternal | AErr _ => True
+  | _ => False
+  end.
+Proof.
+  intros Hfj Hpv Hkp. pose proof (multi_single _ _ Hpv) as Hmulti.
+  assert (Hself : self_chan pp = Some kp) by (unfold self_chan, prov0; by rewrite Hpv).
+  unfold action_of. destruct (pr_body0 pp); cbn [fj] in Hfj; try discriminate.
+  - unfold internal. by rewrite Hmulti.
+  - apply selfn_inv in Hfj as (Hs & _ & _). rewrite Hs. unfold send_on. rewrite Hmulti, Hself. done.
+  - rewrite andb_true_iff, orb_true_iff in Hfj. destruct Hfj as [Hc0 _].
+    assert (Hs : is_self c = false).
+    { destruct Hc0 as [H|H]; [by apply varn_inv in H as (? & _)|by apply chn_inv in H as (? & _)]. }
+    rewrite Hs. unfold recv_on. cbn [fcids]. unfold ncid. destruct (chan c) as [k|]; [|done].
+    rewrite Hmulti. split; [|eauto]. apply elem_of_app. left. by apply elem_of_list_singleton.
+  - unfold internal. by rewrite Hmulti.
+  - unfold internal. by rewrite Hmulti.
+Qed.
+
+Lemma FJ_closes D c p : FJ c -> closes Async D c (Run p) = [].
+Proof.
+  intros HFJ. cbn [closes]. destruct (procs c !! p) as [pp|]; [|done].
+  destruct (action_of Async D pp); try done.
+  destruct (chans c !! c0) as [st|] eqn:Ek; [|done]. destruct (ch_buf st) as [m|] eqn:Eb; [|done].
+  destruct (fj_chans c HFJ _ _ Ek) as [_ [Hn|(m' & Hm' & Hr)]]; [congruence|].
+  rewrite Eb in Hm'. injection Hm' as <-. unfold closes_of. by rewrite Hr.
+Qed.
+
+(* Topo for the class gives the discipline of Diamond.v ... *)
+Theorem FJ_discipline D c : FJ c -> async_discipline D c.
+Proof.
+  intros HFJ p q pp qq Hpq Hp Hq.
+  destruct (fj_proc c HFJ p pp Hp) as [Hfp (pv & kp & Hpv & Hkp & _)].
+  destruct (fj_proc c HFJ q qq Hq) as [Hfq (qv & kq & Hqv & Hkq & _)].
+  pose proof (fj_action D pp pv kp Hfp Hpv Hkp) as Hap. pose proof (fj_action D qq qv kq Hfq Hqv Hkq) as Haq.
+  assert (Hsp : self_chan pp = Some kp) by (unfold self_chan, prov0; by rewrite Hpv).
+  assert (Hsq : self_chan qq = Some kq) by (unfold self_chan, prov0; by rewrite Hqv).
+  split; [|split; [|split]].
+  - intros k [[m1 E1] [m2 E2]]. rewrite E1 in Hap. rewrite E2 in Haq. destruct Hap as [-> _], Haq as [-> _].
+    apply Hpq. exact (fj_prov c HFJ p q pp qq kq Hp Hq Hsp Hsq).
+  - intros k [E1 E2]. unfold is_recv_on in E1, E2. rewrite E1 in Hap. rewrite E2 in Haq.
+    apply Hpq. exact (fj_ment c HFJ p q pp qq k Hp Hq (proj1 Hap) (proj1 Haq)).
+  - rewrite (FJ_closes D c p HFJ). intros x Hx. by apply elem_of_nil in Hx.
+  - rewrite (FJ_closes D c p HFJ). intros x Hx. by apply elem_of_nil in Hx.
+Qed.
+
+(* ... and run-time errors of fork-join processes read no channel, hence are stable *)
+Lemma FJ_error_reads D F c p w e :
+  FJ c -> step Async D F c (Run p) = SError w e -> reads Async D c (Run p) = [] /\ is_Some (procs c !! p).
+Proof.
+  intros HFJ. cbn [step reads]. destruct (procs c !! p) as [pp|] eqn:Hp; [|done].
+  destruct (fj_proc c HFJ p pp Hp) as [Hfp (pv & kp & Hpv & Hkp & Hex)].
+  pose proof (fj_action D pp pv kp Hfp Hpv Hkp) as Hap.
+  destruct (action_of Async D pp) as [| |k m|k| |k pvs|w']; try done.
+  - destruct Hap as [-> Hm]. destruct Hex as [st Hst]. rewrite Hst.
+    destruct (fj_chans c HFJ _ _ Hst) as [Hcl _]. rewrite Hcl. by destruct (ch_buf st).
+  - destruct Hap as [Hment (c0 & k0 & Hbody)].
+    destruct (fj_scoped c HFJ p pp k Hp Hment) as [st Hst]. rewrite Hst.
+    destruct (fj_chans c HFJ _ _ Hst) as [Hcl [Hn|(m & Hm & Hr)]].
+    + by rewrite Hn, Hcl.
+    + rewrite Hm. unfold on_message. rewrite Hbody, Hr. done.
+Qed.
+
+Theorem FJ_error_stable D F c a b w e c' :
+  FJ c -> step Async D F c a = SError w e -> step Async D F c b = SStep c' ->
+  exists w' e', step Async D F c' a = SError w' e'.
+Proof.
+  intros HFJ Ha Hb. exists w, e. eapply error_stable; [apply (fj_ns c HFJ)| |exact Ha|exact Hb].
+  destruct a as [p|s r|f t]; [|by cbn in Ha|by cbn in Ha]. destruct b as [q|s r|f t]; [|by cbn in Hb|by cbn in Hb].
+  destruct (FJ_error_reads D F c p w e HFJ Ha) as [Hr Hex].
+  split; [|split].
+  - cbn. intros x Hx Hy. apply elem_of_list_singleton in Hx, Hy. subst. congruence.
+  - intros x Hx. cbn in Hx. by apply elem_of_list_singleton in Hx as ->.
+  - rewrite Hr. intros k Hk. by apply elem_of_nil in Hk.
+Qed.
+
+(* ------------------------------------------------------------------ the unconditional theorems *)
+(* C03 for fork-join configurations, asynchronous mode: NO hypothesis besides membership in the
+   class (FJ c: a structural property of the configuration; fj_funs F: of the function table). *)
+Theorem forkjoin_determinism D F c pick1 pick2 f1 f2 t1 :
+  fj_funs F -> FJ c -> exec_run f1 pick1 Async D F c = RQuiescent t1 -> (f1 <= f2)%nat ->
+  exists t2, exec_run f2 pick2 Async D F c = RQuiescent t2 /\ cfg_equiv t2 t1 /\ labels t2 ≡ₚ labels t1.
+Proof.
+  intros HF HFJ. apply (determinism_partial Async D F FJ).
+  - intros c0 ch c0' H0 Hs. eapply FJ_step; eauto.
+  - intros c0 a b c1 c2 H0 Hab Ha Hb. eapply async_discipline_indep; eauto using FJ_discipline.
+  - intros c0 a b w e c0' H0. apply FJ_error_stable; done.
+  - done.
+  - apply (fj_ns c HFJ).
+Qed.
+
+Theorem forkjoin_error_excludes_completion D F c pick1 pick2 f1 f2 t1 who e t2 :
+  fj_funs F -> FJ c -> exec_run f1 pick1 Async D F c = RError t1 who e ->
+  exec_run f2 pick2 Async D F c = RQuiescent t2 -> False.
+Proof.
+  intros HF HFJ. apply (error_excludes_completion Async D F FJ).
+  - intros c0 ch c0' H0 Hs. eapply FJ_step; eauto.
+  - intros c0 a b c1 c2 H0 Hab Ha Hb. eapply async_discipline_indep; eauto using FJ_discipline.
+  - intros c0 a b w e0 c0' H0. apply FJ_error_stable; done.
+  - done.
+  - apply (fj_ns c HFJ).
+Qed.
+
+(* ... and the synchronous mode prints the same multiset *)
+Theorem forkjoin_async_sync D F c pick1 f1 t1 :
+  fj_funs F -> FJ c -> bufs_empty c -> exec_run f1 pick1 Sync D F c = RQuiescent t1 ->
+  exists n, forall pick2 f2, (n < f2)%nat ->
+    exists t2, exec_run f2 pick2 Async D F c = RQuiescent t2 /\ labels t2 ≡ₚ labels t1.
+Proof.
+  intros HF HFJ Hb. apply (async_sync_agree_partial D F FJ).
+  - intros c0 ch c0' H0 Hs. eapply FJ_step; eauto.
+  - intros c0 a b c1 c2 H0 Hab Ha Hb'. eapply async_discipline_indep; eauto using FJ_discipline.
+  - intros c0 a b w e c0' H0. apply FJ_error_stable; done.
+  - done.
+  - apply (fj_ns c HFJ).
+  - done.
+Qed.
